@@ -113,7 +113,7 @@ theorem getSub_none (h : SubHdr) (ns : List String) (fl : Flags) (pre : List Str
       cases hs : subKeys ns cfg with
       | nil => rfl
       | cons a r => simp [hs] at hc
-    unfold getSub
+    unfold getSub getSubCore
     simp only [he, hk]
     cases fl.fail <;> cases h.required <;> simp [truthyO, validNameO]
 
@@ -137,7 +137,7 @@ theorem getSub_some (h : SubHdr) (ns : List String) (fl : Flags) (pre : List Str
     simp only [he] at hc
     cases hc
     refine ⟨false, ?_⟩
-    unfold getSub
+    unfold getSub getSubCore
     simp only [he, settled, prunedK, Option.isNone_some, Option.isSome_some, Bool.false_and, truthyO, validNameO]
     cases fl.fail <;> cases h.required <;> simp [ht]
   | none =>
@@ -152,7 +152,7 @@ theorem getSub_some (h : SubHdr) (ns : List String) (fl : Flags) (pre : List Str
       simp only [hs, List.head?_cons, Option.map_some] at hc
       cases hc
       refine ⟨decide ((a :: r).length > 1), ?_⟩
-      unfold getSub
+      unfold getSub getSubCore
       simp only [he, hs, settled, prunedK, hf, Option.isNone_none, Option.isSome_none, List.isEmpty_cons, Bool.not_false,
         Bool.and_self, Bool.true_and, if_true, List.head?_cons, Option.map_some, truthyO, ht, validNameO, List.headD_cons]
       cases fl.fail <;> cases h.required <;> simp
